@@ -26,7 +26,7 @@ import YarlProofs.C06Encoded
 
   Vocabulary added by C07Encoded.lean.
   `C07_buildArgCheck a` — the argument checks of `URL.build`, in source order (`none` = all passed): authority mixed with
-      user / password / host / port → ValueError; port not an int → TypeError; port outside 0..65535 → ValueError; port
+      user / password / host / port (`port is not None`: 0 counts) → ValueError; port not an int → TypeError; port outside 0..65535 → ValueError; port
       without host → ValueError; `query=` together with `query_string=` → ValueError.  They do not depend on `encoded`.
   `C07_buildQueryString e a` — the query text `build` stores in BOTH modes: `get_str_query(query) or ""` for a truthy
       `query=`, else `query_string=` as given.
@@ -74,7 +74,7 @@ theorem C07_headline_build_encoded_true_verbatim (e : Env) (a : BuildArgs) (u : 
   C07_build_encoded_verbatim e a u ha h
 
 /-- the authority text `build(encoded=True)` stores, spelled out: `authority=` verbatim; without `authority=` and
-    `host=` NOTHING (user / password / port 0 are silently dropped); otherwise `userinfo ++ host ++ port` with the host
+    `host=` NOTHING (user / password are silently dropped; a port — 0 included — without a host raises); otherwise `userinfo ++ host ++ port` with the host
     VERBATIM (NO brackets around a host with ':', no IDNA, no lower-casing), user / password verbatim (an empty user is
     dropped; `user:password@` as soon as a password — even "" — is given), the port dropped iff it equals
     `DEFAULT_PORTS.get(scheme)` for the scheme AS GIVEN ("HTTP" has no default port: ":80" stays).
@@ -158,7 +158,8 @@ theorem C07_headline_build_encoded_true_instance :
 
 /-- the argument conflicts still raise with `encoded=True` (Python: `URL.build(encoded=True, authority='a', host='h')`,
     `…(authority='a', user='u')`, `…(port=80)`, `…(host='h', port=70000)`, `…(host='h', port=True)`,
-    `…(query='a', query_string='b')`), while `authority='a', port=0` and `authority='a', user='', password=''` pass.
+    `…(query='a', query_string='b')`, and — the checks read `port is not None` — `authority='a', port=0`), while
+    `authority='a', user='', password=''` passes.
     Cites C07_build_encoded_conflicts (C07Encoded.lean). -/
 theorem C07_headline_build_encoded_true_conflicts :
     let e0 : Env := { b := .py, o := Oracles.empty }
@@ -168,7 +169,7 @@ theorem C07_headline_build_encoded_true_conflicts :
     build e0 { host := "h".toStr, port := some 70000, encoded := true } = .error .valueError ∧
     build e0 { host := "h".toStr, portKind := 1, encoded := true } = .error .typeError ∧
     build e0 { query := .str "a".toStr, queryString := "b".toStr, encoded := true } = .error .valueError ∧
-    build e0 { authority := "a".toStr, port := some 0, encoded := true } = .ok (fromParts [] "a".toStr [] [] []) ∧
+    build e0 { authority := "a".toStr, port := some 0, encoded := true } = .error .valueError ∧
     build e0 { authority := "a".toStr, user := some [], password := some [], encoded := true } =
       .ok (fromParts [] "a".toStr [] [] []) :=
   C07_build_encoded_conflicts
